@@ -210,7 +210,10 @@ int flush_pubsub_msgs(void *data, const char *key, void *value) {
                 discard = true;
             } else {
                 mm->sub->flags |= M_SRC_ZOMBIE;
-                m_map_remove(mod->subscriptions, mm->sub->ps_src.topic);
+                /* Unless it was already unsubscribed, or replaced by a new subscription to the same topic */
+                if (m_map_get(mod->subscriptions, mm->sub->ps_src.topic) == mm->sub) {
+                    m_map_remove(mod->subscriptions, mm->sub->ps_src.topic);
+                }
             }
         }
         if (!discard) {
